@@ -82,6 +82,12 @@ def allowed_precondition(c):
     return False
 
 
+def validation_helper(fn):
+    """callees that are followed when looking for a validation call: the package's own check helpers and small private helpers
+    (a range / option check wrapped in a helper is still that check); everything else stays an uninterpreted call"""
+    return fn.mod.endswith('utils.checks') or fn.name.startswith('_') or fn.name.startswith('check_')
+
+
 def checked_flow(rep, model):
     """the amplitude method has two consumers of min_n_cycles and only one of them (the run filter) range-checks it: whatever value the unchecked
     consumer (the sample-wise detector inside compute_burst_fraction) receives must be the value the checked one receives"""
@@ -125,7 +131,7 @@ def must_check(rep, model):
             ctx = SE.Ctx(model, kinds={fn.params[0]: 'ndarray'})
         else:
             ctx = SE.Ctx(model)
-        ctx.inline = False
+        ctx.inline_only = validation_helper
         E.run(model, fn.qual, bound, ctx=ctx)
         def covers(a):
             # the checked value is the parameter itself on every path where it is kept; branches that replace it by a constant inside the bounds are harmless
@@ -156,7 +162,7 @@ def must_check(rep, model):
             rep.violation('MUST-CHECK', inst, e['where'], expected='an unconditional check (only a type guard or the empty-input shortcut may precede it)',
                           found=f'check only under {T.brief(T.and_([e["guard"]] + pre), 140)}')
             continue
-        first_use = next((x for x in ctx.trace if x['kind'] in ('call', 'pkgcall', 'store', 'mutate') and uses(x, p)), None)
+        first_use = next((x for x in ctx.trace if x['kind'] in ('call', 'pkgcall', 'store', 'mutate') and not x.get('inlined') and uses(x, p)), None)
         if first_use is not e and first_use is not None and first_use['name'] != 'check_param_range':
             rep.violation('MUST-CHECK', inst, e['where'], expected='the check precedes every other use of the parameter',
                           found=f'{first_use["name"]} at {first_use["where"]} uses {param} first')
@@ -166,7 +172,7 @@ def must_check(rep, model):
     # relational checks
     fn = model.find('compute_burst_fraction')
     ctx = SE.Ctx(model)
-    ctx.inline = False
+    ctx.inline_only = validation_helper
     at = ('param', 'amp_threshes')
     E.run(model, fn.qual, {'amp_threshes': at}, ctx=ctx)
     got = {(e['args'][0], T.index(e['args'][2], C(0)), T.index(e['args'][2], C(1))) for e in ctx.trace
@@ -184,7 +190,7 @@ def must_check(rep, model):
         site = f'{fn.path}:{fn.node.lineno} {fname}'
         s, e_ = ('atom', 'start', 'num'), ('atom', 'stop', 'num')
         ctx = SE.Ctx(model)
-        ctx.inline = False
+        ctx.inline_only = validation_helper
         E.run(model, fn.qual, {'start': s, 'stop': e_}, ctx=ctx)
         got = {(e['args'][0], T.index(e['args'][2], C(0)), T.index(e['args'][2], C(1))) for e in ctx.trace
                if e['name'] == 'check_param_range' and len(e['args']) == 3 and e['guard'] == T.TRUE}
@@ -196,7 +202,7 @@ def must_check(rep, model):
                           found=sorted((T.show(a), T.show(b), T.show(c)) for a, b, c in got))
         for label, bound, want1 in (('stop omitted', {'start': s, 'stop': NONE}, {(s, C(0), INF)}), ('start omitted', {'start': NONE, 'stop': e_}, {(e_, C(0), INF)})):
             ctx = SE.Ctx(model)
-            ctx.inline = False
+            ctx.inline_only = validation_helper
             E.run(model, fn.qual, bound, ctx=ctx)
             got1 = {(e['args'][0], T.index(e['args'][2], C(0)), T.index(e['args'][2], C(1))) for e in ctx.trace
                     if e['name'] == 'check_param_range' and len(e['args']) == 3 and e['guard'] == T.TRUE and e['args'][0] in (s, e_)}
@@ -214,12 +220,12 @@ def options(rep, model):
         site = f'{fn.path}:{fn.node.lineno} {fname}'
         p = ('param', param)
         ctx = SE.Ctx(model)
-        ctx.inline = False
+        ctx.inline_only = validation_helper
         E.run(model, fn.qual, {param: p}, ctx=ctx)
         evs = [e for e in ctx.trace if e['name'] == 'check_param_options' and e['args'] and e['args'][0] == p and e['guard'] == T.TRUE]
         want = T.sort_terms(C(o) for o in opts)
         if evs and len(evs[0]['args']) == 3 and evs[0]['args'][2][0] in ('list', 'tuple') and T.sort_terms(evs[0]['args'][2][1]) == want:
-            first_use = next((x for x in ctx.trace if x['kind'] in ('call', 'pkgcall', 'store') and uses(x, p)), None)
+            first_use = next((x for x in ctx.trace if x['kind'] in ('call', 'pkgcall', 'store') and not x.get('inlined') and uses(x, p)), None)
             if first_use is evs[0]:
                 rep.ok('OPTIONS', f'{fname}({param})', evs[0]['where'], found=opts)
             else:
